@@ -123,10 +123,10 @@ func IDs() []string {
 	return out
 }
 
-var allShapes = []string{"doc", "flat", "flatb", "kv", "nested", "nestedb", "pair", "person", "rep3"}
+var allShapes = []string{"doc", "flat", "flatb", "kv", "nested", "nestedb", "opt4", "pair", "person", "rep3"}
 
 // c13Shapes: all shapes; flat/flatb and nested/nestedb are twins (same column names, different physical types).
-var c13Shapes = []string{"doc", "flat", "flatb", "kv", "nested", "nestedb", "person", "rep3"}
+var c13Shapes = allShapes
 
 // writerCandidates lifts ShrinkWriter to cases.
 func writerCandidates(c *core.Case) []*core.Case {
